@@ -25,9 +25,11 @@ def obligations(chk, prop):
         raise Inconclusive('insert_features: %d candidates' % len(cands))
     entry = cands[0]
     params = {n: int(p[1:]) - 1 for n, p in entry.debug.items() if p.startswith('_') and p[1:].isdigit() and int(p[1:]) <= len(entry.params)}
-    need = ('into', 'features_stream', 'which_scenario', 'retries', 'sender', 'cli', 'fail_fast')
-    if any(n not in params for n in need):
+    need = ('into', 'features_stream', 'which_scenario', 'retries', 'sender')
+    known = need + ('cli', 'fail_fast')
+    if any(n not in params for n in need) or any(n not in known for n in params):
         raise Inconclusive('insert_features parameters %s' % sorted(params))
+    from checks import run_prefix
     F = prog.tables.struct_fields('gherkin::Feature')
     PF = {v[0]: i for i, v in enumerate(prog.tables.enum_variants('event::Cucumber<W>'))}
     pf_fields = prog.tables.enum_variants('event::Cucumber<W>')[PF['ParsingFinished']][2]
@@ -44,7 +46,10 @@ def obligations(chk, prop):
     for n in n_items:
         for pend in itertools.product((0, 1), repeat=n):
             ex, M = chk.new_exec(loop_bound=4 * n + 8)
-            ff = z3.Bool('fail_fast')
+            # fail-fast may be given by the builder or on the command line: both symbolic; the values insert_features
+            # really receives (`cli`, and `fail_fast` while it is a parameter) come from the real prefix of Basic::run
+            bff, cff = z3.Bool('builder.fail_fast'), z3.Bool('cli.fail_fast')
+            ff = z3.Or(bff, cff)
             res_d = [z3.BitVec('item%d.res' % i, 64) for i in range(n)]
             cs = [z3.BitVec('item%d.count_scenarios' % i, 64) for i in range(n)]
             st = [z3.BitVec('item%d.count_steps' % i, 64) for i in range(n)]
@@ -91,8 +96,10 @@ def obligations(chk, prop):
                 args[params['which_scenario']] = Lazy('F', 'which')
                 args[params['retries']] = Lazy('RetryOptionsFn', 'retries')
                 args[params['sender']] = Lazy('UnboundedSender', 'sender')
-                args[params['cli']] = Lazy('runner::basic::Cli', 'cli')
-                args[params['fail_fast']] = ff
+                real = run_prefix.real_args(chk, ex_, M, builder={'fail_fast': bff}, cli={'fail_fast': cff})['insert_features']
+                for nm in ('cli', 'fail_fast'):
+                    if nm in params:
+                        args[params[nm]] = real[params[nm]]
                 co = ex_.call_body(entry, args)
                 polls, _ = poll_to_completion(ex_, M, co, 4 * n + 6)
                 return {'log': list(ex_.env.get('log', [])), 'polls': polls}
